@@ -116,6 +116,31 @@ def declarations(path: Path):
     return res
 
 
+def qualified_declarations(path: Path):
+    """[(line, kind, fully qualified name)]: namespaces are tracked through `namespace X` / `end X`, and a name written
+    `_root_.A.b` is taken as `A.b`."""
+    src = strip_lean_comments(path.read_text())
+    events = [(m.start(), "ns", m.group(1)) for m in re.finditer(r"^namespace\s+(\S+)", src, re.M)]
+    events += [(m.start(), "end", m.group(1)) for m in re.finditer(r"^end\s+(\S+)", src, re.M)]
+    events += [(m.start(), "decl", m) for m in DECL_RE.finditer(src)]
+    stack, res = [], []
+    for pos, kind, x in sorted(events, key=lambda e: e[0]):
+        if kind == "ns":
+            stack.append(x)
+        elif kind == "end":
+            if stack and stack[-1] == x:
+                stack.pop()
+        else:
+            line = src.count("\n", 0, pos) + 1
+            name = x.group(2) or f"example@{line}"
+            if name.startswith("_root_."):
+                full = name[len("_root_."):]
+            else:
+                full = ".".join(stack + [name]) if stack else name
+            res.append((line, x.group(1), full))
+    return res
+
+
 def namespace_of(path: Path) -> str:
     m = re.search(r"^namespace\s+(\S+)", strip_lean_comments(path.read_text()), re.M)
     return m.group(1) if m else ""
@@ -173,10 +198,9 @@ class LeanProject:
         names, n_examples = [], 0
         for mod in modules:
             p = self.module_path(mod)
-            ns = namespace_of(p)
-            for (_l, kind, name) in declarations(p):
+            for (_l, kind, name) in qualified_declarations(p):
                 if kind in ("theorem", "lemma"):
-                    names.append((ns + "." if ns else "") + name)
+                    names.append(name)
                 elif kind == "example":
                     n_examples += 1
         aud_dir = self.dir / ".lake" / "audit"
